@@ -206,8 +206,18 @@ Print Assumptions agrees_with_C12_start_span.
 
 (* --- the checker that ./check runs on the implementation's observations accepts the model's observation of every
    program: every number of threads, every schedule, every configuration - for ANY sampler function that answers the
-   script when it is declared to be the scripted sampler and whose attribute map is null or the scripted one ... *)
-Theorem model_meets_spec_any_sampler : forall cf n ops, samp_ok cf -> spec_case cf ops (run_case cf n ops) = [].
+   script when it is declared to be the scripted sampler and whose attribute map is null or the scripted one.
+   The two oracles: with a custom (scripted) id generator nothing is assumed about the ids; with the SDK's default
+   RandomIdGenerator the ids written in the operations stand for what it returns and are assumed FRESH when drawn
+   (non-zero, different from the span id / trace id of every span so far: [oracle_fresh]) - the checker then also
+   demands freshness of what the implementation shows (the fresh_ids clauses). *)
+Theorem model_meets_spec_oracles : forall cf n ops, samp_ok cf -> oracle_fresh cf (world0 n) ops ->
+  spec_case cf ops (run_case cf n ops) = [].
+Proof. exact ProofsMeets.model_meets_spec_oracles. Qed.
+Print Assumptions model_meets_spec_oracles.
+
+Theorem model_meets_spec_any_sampler : forall cf n ops, samp_ok cf -> cf_defgen cf = false ->
+  spec_case cf ops (run_case cf n ops) = [].
 Proof. exact ProofsMeets.model_meets_spec_any_sampler. Qed.
 Print Assumptions model_meets_spec_any_sampler.
 
@@ -218,6 +228,12 @@ Theorem model_meets_spec : forall enabled random s n ops,
 Proof. exact ProofsMeets.model_meets_spec. Qed.
 Print Assumptions model_meets_spec.
 
+Theorem model_meets_spec_default_generator : forall enabled s n ops,
+  oracle_fresh (cfg_of_default enabled s) (world0 n) ops ->
+  spec_case (cfg_of_default enabled s) ops (run_case (cfg_of_default enabled s) n ops) = [].
+Proof. exact ProofsMeets.model_meets_spec_default_generator. Qed.
+Print Assumptions model_meets_spec_default_generator.
+
 (* --- and through the token format: printing the model's observation and parsing it the way run_spec parses the
    implementation's line gives the observation back, so on every case line that parses the extracted checker
    reports nothing about the extracted model's output *)
@@ -226,6 +242,12 @@ Theorem observation_roundtrip : forall cf n ops,
 Proof. exact ProofsWire.observation_roundtrip. Qed.
 Print Assumptions observation_roundtrip.
 
-Theorem model_meets_spec_wire : forall l : list tok, parse_case l <> None -> run_spec l (run_model l) = [].
+Theorem model_meets_spec_wire : forall l : list tok, parse_case l <> None -> case_oracle_fresh l ->
+  run_spec l (run_model l) = [].
 Proof. exact ProofsWire.model_meets_spec_wire. Qed.
 Print Assumptions model_meets_spec_wire.
+
+Theorem model_meets_spec_wire_scripted : forall l cf n ops, parse_case l = Some (cf, n, ops) -> cf_defgen cf = false ->
+  run_spec l (run_model l) = [].
+Proof. exact ProofsWire.model_meets_spec_wire_scripted. Qed.
+Print Assumptions model_meets_spec_wire_scripted.
